@@ -93,11 +93,71 @@ def monitor(c):
     return out
 
 
+
+def generic_union_members(out):
+    """unions that mention type variables in generic dataclasses: after binding, the members are those of the written union with
+    the variables replaced and nested unions flattened IN ORDER, a repeated member keeping its FIRST position; the left-most
+    accepting member of that list wins"""
+    import typing as t
+    import pane
+    T, U = t.TypeVar('T'), t.TypeVar('U')
+    n = 0
+
+    class A(pane.PaneBase):
+        x: int
+
+    class B(pane.PaneBase):
+        x: int
+        y: int = 0
+
+    class G1(pane.PaneBase, t.Generic[T]):
+        u: t.Union[T, int, float]
+
+    class G2(pane.PaneBase, t.Generic[T, U]):
+        u: t.Union[T, U]
+
+    class G3(pane.PaneBase, t.Generic[T]):
+        u: t.Union[T, B, A]
+        us: t.List[t.Union[T, B, A]] = pane.field(default_factory=list)
+
+    class G4(pane.PaneBase, t.Generic[T]):
+        u: t.Union[int, T, str, T]
+    cases = [
+        ('Union[T, int, float][T=float]', G1[float], [float, int], [(3, 3.0), (True, 1.0), (2.5, 2.5)]),
+        ('Union[T, int, float][T=int]', G1[int], [int, float], [(3, 3), (2.5, 2.5)]),
+        ('Union[T, int, float][T=str]', G1[str], [str, int, float], [('a', 'a'), (3, 3)]),
+        ('Union[T, U][T=float, U=Union[int, float]]', G2[float, t.Union[int, float]], [float, int], [(7, 7.0)]),
+        ('Union[T, U][T=int, U=Union[float, int]]', G2[int, t.Union[float, int]], [int, float], [(7, 7), (1.5, 1.5)]),
+        ('Union[T, B, A][T=A]', G3[A], [A, B], [({'x': 1}, A(1)), ({'x': 1, 'y': 2}, B(1, 2))]),
+        ('Union[int, T, str, T][T=float]', G4[float], [int, float, str], [(3, 3), (2.5, 2.5), ('s', 's')]),
+        ('Union[int, T, str, T][T=str]', G4[str], [int, str], [('s', 's'), (3, 3)]),
+    ]
+    with warnings.catch_warnings():
+        warnings.simplefilter('ignore')
+        for label, cls, members, probes in cases:
+            n += 1
+            fty = {f.name: f.type for f in cls.__pane_info__.fields}['u']
+            got = [a for a in t.get_args(fty)] if t.get_origin(fty) in (t.Union, getattr(__import__('types'), 'UnionType', t.Union)) else [fty]
+            if got != members:
+                out.violation('C11:generic-union-member-order', f'{label}: the bound field has members {got}, expected {members} (first occurrence of each member, in order)', {'case': label})
+            for v, want in probes:
+                n += 1
+                try:
+                    r = cls.from_data({'u': v}).u
+                except Exception as e:
+                    out.violation(f'C11:generic-union:{type(e).__name__}', f'{label}: from_data({{"u": {v!r}}}) raised {type(e).__name__}: {str(e)[:150]}', {'case': label})
+                    continue
+                if type(r) is not type(want) or r != want:
+                    out.violation('C11:generic-union-not-leftmost', f'{label}: {v!r} converts to {r!r}; the left-most accepting member of {members} gives {want!r}', {'case': label, 'value': repr(v)})
+    return n
+
+
 def run(ctx, out):
     out.rule = ('unions at top level and nested, 50% drawn from overlap families (int/float/bool/complex, list/tuple, str/Literal, '
                 'dict/dataclass, dataclass/dataclass, conditions), x values (valid for a random member / near / arbitrary); the '
                 'union result is compared with each member tried alone in declaration order; serialisation compared with the '
                 'accepting members. Non-trivial = non-leaf type; distinct by (type term, value).')
+    out.evaluations += generic_union_members(out)
     convprop.run(ctx, out, PROP, monitor, twins=True, cfg={'overlap': True, 'weights': {'union': 9.0}})
 
 
